@@ -355,6 +355,10 @@ def gen_problem(rng, opts=None):
             lib = rng.choice([".80c", ".70c", ".00c", ".710nc"]) if not o.get("nolib") else rng.choice(["", ".80c"])
             card += [T("%d%s" % (z, lib)), T(fmt_real(rng, positive=True, style=rng.choice(["fixed", "sci", "fortran", "int"])))]
             mat_zaids[m].append("%d%s" % (z, lib))
+        if o.get("mass_fraction_materials") and rng.random() < 0.35:
+            # a material given in MASS fractions: every fraction negative
+            card = [card[0]] + [tok if k % 2 == 0 else T("-" + tok[1].lstrip("+")) for k, tok in enumerate(card[1:])]
+            P["meta"].setdefault("material_mass", []).append(m)
         data.append(card)
         if rng.random() < 0.2:
             data.append([T("mt%d" % m), T(rng.choice(["lwtr.10t", "grph.20t", "poly.01t"]))])
@@ -368,15 +372,20 @@ def gen_problem(rng, opts=None):
         if o.get("tr_forms"):
             # every form MCNP knows: 0, 3, 5, 6 or 9 entries of the rotation matrix; sometimes the identity-like
             # matrix of a 90 degree turn with its 6.123e-17 next to a repeated displacement '0 2r'
-            n = rng.choice([3, 3, 6, 8, 9, 12])
+            # option tr_flag: also the full form of 13 entries, the last one the direction flag (+-1)
+            n = rng.choice([3, 3, 6, 8, 9, 12, 13, 13] if o.get("tr_flag") else [3, 3, 6, 8, 9, 12])
             if n == 12 and o.get("tr_tiny") and rng.random() < 0.4:
                 it = [T(x) for x in ["0", "2r", "6.123e-17", "1", "0", "-1", "6.123e-17", "0", "0", "0", "1"]]
+            elif n == 13:
+                it, _ = gen_numlist(rng, 12, positive=False, shortcuts=False)
+                it = it + [T(rng.choice(["-1", "-1", "1", "+1"]))]
+                P["meta"].setdefault("tr_flag", {})[t] = it[-1][1]
             else:
                 it, _ = gen_numlist(rng, n, positive=False, shortcuts=False)
         else:
             n = rng.choice([3, 3, 12])
             it, _ = gen_numlist(rng, n, positive=False, shortcuts=False)
-        tr_rot[t] = n - 3
+        tr_rot[t] = min(9, n - 3)
         data.append(card + it)
     P["meta"]["tr_rotation_entries"] = tr_rot
     ncell_entries = len(cell_nums)
